@@ -160,20 +160,28 @@ def oracle_case(lines, outs, deep=True):
 
 
 def report(rep, cases, mism, obad, component):
+    def named(msg):
+        h = msg.split(": ")[0]
+        return h if ": " in msg and h.replace("-", "").isalpha() else ""
     sites = {}
     for ci, first in mism:
         cl, ci_, cm = cases[ci]
         if ci in obad:
             k = obad[ci][0][0]
-            sites.setdefault(cl[k].split()[0], {"o": [], "c": []})["o"].append((ci, k))
+            sites.setdefault(cl[k].split()[0] + "|" + named(obad[ci][0][1]), {"o": [], "c": []})["o"].append((ci, k))
         else:
-            sites.setdefault(cl[first].split()[0], {"o": [], "c": []})["c"].append((ci, first))
-    for site, d in sorted(sites.items()):
+            sites.setdefault(cl[first].split()[0] + "|", {"o": [], "c": []})["c"].append((ci, first))
+    for skey, d in sorted(sites.items()):
+        site = skey.split("|")[0]
         if d["o"]:
             ci, k = min(d["o"], key=lambda x: len(cases[x[0]][0]))
             cl, ci_, cm = cases[ci]
-            rep.violation(f"{site}: {obad[ci][0][1]}", {"kind": "oracle", "ops": cl[:k + 1], "impl": ci_[:k + 1], "model": cm[:k + 1], "cases_failing": len(d["o"])},
-                          tags={site + ":differs-from-model"})
+            msg = obad[ci][0][1]
+            tags = {site + ":differs-from-model"}
+            if ": " in msg and msg.split(": ")[0].replace("-", "").isalpha():
+                tags.add(msg.split(": ")[0])      # findings named by the oracle (e.g. idl-sentinel-arith)
+            rep.violation(f"{site}: {msg}", {"kind": "oracle", "ops": cl[:k + 1], "impl": ci_[:k + 1], "model": cm[:k + 1], "cases_failing": len(d["o"])},
+                          tags=tags)
         else:
             ci, first = min(d["c"], key=lambda x: len(cases[x[0]][0]))
             cl, ci_, cm = cases[ci]
@@ -190,7 +198,13 @@ def report(rep, cases, mism, obad, component):
         if site in seen:
             continue
         seen.add(site)
-        rep.violation(f"{site}: model and implementation agree but {msg}", {"kind": "oracle-agree", "ops": cl[:k + 1], "impl": ci_[:k + 1], "model": cm[:k + 1]}, tags={site})
+        tags = {site}
+        if ": " in msg and msg.split(": ")[0].replace("-", "").isalpha():
+            tags.add(msg.split(": ")[0])      # findings named by the oracle (e.g. idl-sentinel-arith)
+            if (msg.split(": ")[0], "k") in seen:
+                continue
+            seen.add((msg.split(": ")[0], "k"))
+        rep.violation(f"{site}: model and implementation agree but {msg}", {"kind": "oracle-agree", "ops": cl[:k + 1], "impl": ci_[:k + 1], "model": cm[:k + 1]}, tags=tags)
 
 
 def run(tier, seed, replay=None):
